@@ -53,6 +53,12 @@ Definition iter_splitlines (alts : list text) (t : text) : list text :=
   let tail := skipn prev_end t in
   match tail with [] => out | _ => out ++ [tail] end.
 
+(* strutils.indent with the default key=bool:
+     newline.join([(margin + line if key(line) else line) for line in iter_splitlines(text)]) *)
+Definition indent (alts : list text) (t margin newline : text) : text :=
+  join_lines newline (map (fun line => match line with [] => line | _ => margin ++ line end)
+                          (iter_splitlines alts t)).
+
 (* ===== jsonutils.reverse_iter_lines ============================================ *)
 Definition bytes_splitlines : text -> list text := splitlines is_nl_byte.     (* bytes.splitlines() *)
 Definition ends_lf (b : text) : bool := last b 0 =? LF.                        (* buff[-1:] == b'\n' *)
@@ -94,7 +100,9 @@ Fixpoint decode_all (ls : list text) : option (list text) :=
               end
   end.
 
-Inductive fmode := Binary | TextUtf8.     (* BytesIO / open(..., 'rb')  vs  open(..., 'r', encoding='utf-8') *)
+(* BytesIO / open(..., 'rb')  |  open(..., 'r', encoding='utf-8') or encoding='utf-8' given  |
+   open(..., 'r', encoding='latin-1') or encoding='latin-1' given (code point = byte value) *)
+Inductive fmode := Binary | TextUtf8 | TextLatin1.
 
 (* list(reverse_iter_lines(f, blocksize)): Ok lines | Raise ValueError (UnicodeDecodeError)
    | Raise RuntimeError = model out of fuel *)
@@ -104,6 +112,7 @@ Definition reverse_iter_lines (m : fmode) (c : text) (bs pos : nat) : res (list 
   | Some ls => match m with
                | Binary => Ok ls
                | TextUtf8 => match decode_all ls with Some ts => Ok ts | None => Raise ValueError end
+               | TextLatin1 => Ok ls
                end
   end.
 
@@ -186,6 +195,12 @@ Section JSONL.
         end
     | TextUtf8, true =>
         match reverse_iter_lines TextUtf8 c jsonl_blocksize (length c) with
+        | Ok ls => Ok (jsonl_next_all loads_text is_ws_str ie ls)
+        | Raise e => Raise e
+        end
+    | TextLatin1, false => Ok (jsonl_next_all loads_text is_ws_str ie (file_iter_text c))
+    | TextLatin1, true =>
+        match reverse_iter_lines TextLatin1 c jsonl_blocksize (length c) with
         | Ok ls => Ok (jsonl_next_all loads_text is_ws_str ie ls)
         | Raise e => Raise e
         end
